@@ -443,7 +443,7 @@ def _verify(ctx, pid, fams, limit, invariants, extra=None):
 def c01(ctx):
     q = ctx.quick()
     fams = [("core", 5 if q else 6, 797 if q else 6397), ("recovery", 6 if q else 7, 61 if q else 211), ("global", 5 if q else 6, 97 if q else 397),
-            ("nopolicy", 3, 11), ("window", 9, 100003), ("long", 14, 60 if q else 3000)]
+            ("nopolicy", 3, 11), ("window", 9, 100003), ("long", 14, 60 if q else 1200)]
     if not q:
         fams.append(("tworec", 9, 100003))
     return _verify(ctx, "C01", fams, 3000 if q else 60000, ["C01Refines"])
@@ -507,7 +507,7 @@ def _merge_file_rules(ctx, tally):
 def c07(ctx):
     q = ctx.quick()
     fams = [("recovery", 6 if q else 7, 23 if q else 61), ("core", 5 if q else 6, 1597 if q else 9973), ("window", 9, 100003),
-            ("tworec", 9, 100003), ("long", 14, 50 if q else 2000)]
+            ("tworec", 9, 100003), ("long", 14, 50 if q else 1000)]
     return _verify(ctx, "C07", fams, 8000 if q else 80000, ["C07Refines"])
 
 
